@@ -973,6 +973,38 @@ type VersionedSignedValidatorRegistration struct {
 	eth2api.VersionedSignedValidatorRegistration
 }
 
+// validate returns an error if the registration has an unknown version or lacks the versioned payload,
+// since accessing such a value would panic.
+func (r VersionedSignedValidatorRegistration) validate() error {
+	switch r.Version {
+	case eth2spec.BuilderVersionV1:
+		if r.V1 == nil || r.V1.Message == nil {
+			return errors.New("no V1 registration")
+		}
+	default:
+		return errors.New("unknown version")
+	}
+
+	return nil
+}
+
+// UnmarshalSSZ ssz unmarshalls the VersionedSignedValidatorRegistration object and validates it,
+// since the underlying decoder accepts any version.
+func (r *VersionedSignedValidatorRegistration) UnmarshalSSZ(b []byte) error {
+	var resp eth2api.VersionedSignedValidatorRegistration
+	if err := resp.UnmarshalSSZ(b); err != nil {
+		return errors.Wrap(err, "unmarshal validator (builder) registration")
+	}
+
+	if err := (VersionedSignedValidatorRegistration{VersionedSignedValidatorRegistration: resp}).validate(); err != nil {
+		return err
+	}
+
+	r.VersionedSignedValidatorRegistration = resp
+
+	return nil
+}
+
 func (r VersionedSignedValidatorRegistration) MessageRoot() ([32]byte, error) {
 	switch r.Version {
 	case eth2spec.BuilderVersionV1:
@@ -1073,6 +1105,10 @@ func (r *VersionedSignedValidatorRegistration) UnmarshalJSON(input []byte) error
 		resp.V1 = registration
 	default:
 		return errors.New("unknown version")
+	}
+
+	if err := (VersionedSignedValidatorRegistration{VersionedSignedValidatorRegistration: resp}).validate(); err != nil {
+		return err
 	}
 
 	r.VersionedSignedValidatorRegistration = resp
